@@ -152,6 +152,8 @@ func c11Scenarios() []c11Scenario {
 	sc[len(sc)-1].ThreadSet = []int{1, 4}
 	add("dist-avg", false, true, "compute", "distance", "-m", "pdist", "-a", "-i", "@nt.fa")
 	add("dist-range", false, true, "compute", "distance", "-m", "jc", "--range1", "0:1", "--range2", "1:3", "-i", "@nt.fa")
+	add("dist-range-above", false, true, "compute", "distance", "-m", "jc", "--range1", "2:3", "--range2", "0:2", "-i", "@nt.fa")
+	add("dist-range-inside", false, true, "compute", "distance", "-m", "pdist", "--range1", "1:2", "--range2", "0:3", "-i", "@nt.fa")
 	add("dist-prot-lg", false, true, "compute", "distance", "-m", "lg", "-i", "@aa.fa")
 	add("dist-multi", false, true, "compute", "distance", "-m", "pdist", "-p", "-i", "@multi.ph")
 	// --- cleaning, dedup, compress
@@ -819,7 +821,7 @@ func init() {
 	mc.Register(&mc.Prop{
 		ID:    "C11",
 		Level: "model_checking",
-		Rule: "subprocess-mode exploration of the goalign binary instrumented from the current tree: for each of the listed command scenarios (every documented command family, 1-3 flag sets each, on small nucleotide / protein / multi-Phylip / malformed-second-alignment inputs) x seeds {1,7} (randomised commands; shuffle seqs and sample sites also 0, -2, -1234567890123, build seqboot and mutate snvs also -2: every seed but the documented -1 replays) x --threads {1,2,3,16} (threaded commands; distances of a 7-row alignment with 3, 4 and 5 threads: more rows than workers, neither the rows nor the rows less one a multiple of the workers): the default execution, then EVERY execution within 2 (quick) / 3 (thorough) deviations from it when run with one thread, 2 deviations with 2 threads and 1 deviation with 3 and 16 threads (both tiers) — a deviation is one scheduling decision other than the default (keep the running goroutine, else the lowest runnable id) at a channel/mutex/WaitGroup/spawn operation, one non-sorted iteration order at a ranged map, or one clock step at time.Now — must give exactly the bytes (stdout, exit status, every file written) of the default one-thread execution, end normally, and show no data race (vector clocks). " +
+		Rule: cliStreamRule[1:] + " " + "subprocess-mode exploration of the goalign binary instrumented from the current tree: for each of the listed command scenarios (every documented command family, 1-3 flag sets each, on small nucleotide / protein / multi-Phylip / malformed-second-alignment inputs) x seeds {1,7} (randomised commands; shuffle seqs and sample sites also 0, -2, -1234567890123, build seqboot and mutate snvs also -2: every seed but the documented -1 replays) x --threads {1,2,3,16} (threaded commands; distances of a 7-row alignment with 3, 4 and 5 threads: more rows than workers, neither the rows nor the rows less one a multiple of the workers): the default execution, then EVERY execution within 2 (quick) / 3 (thorough) deviations from it when run with one thread, 2 deviations with 2 threads and 1 deviation with 3 and 16 threads (both tiers) — a deviation is one scheduling decision other than the default (keep the running goroutine, else the lowest runnable id) at a channel/mutex/WaitGroup/spawn operation, one non-sorted iteration order at a ranged map, or one clock step at time.Now — must give exactly the bytes (stdout, exit status, every file written) of the default one-thread execution, end normally, and show no data race (vector clocks). " +
 			"Reformat chains: ALL format sequences of <=3 conversions among fasta/phylip/nexus/clustal that return to the starting format, on 8 inputs (one whose names hold multi-byte UTF-8 characters, one that fits no alphabet as a whole, one with '?', '*' and lower case, one whose names are NEXUS keywords but for their case), must return the starting bytes; build distboot == build seqboot + compute distance for 9 models (6 nucleotide, 3 protein on a gapped protein alignment) x {no flag, -r, --alpha 0.7, both} x 2 seeds, and x partial bootstrap -f 0.5, 0.25. Each scenario also runs on the uninstrumented binary and on the instrumented binary in pass-through mode (must agree), and a second time in the directory that holds the output files of a first run (must give what a run in an empty directory gives). states/transitions = nodes/edges of the choice trees; distinct_nontrivial = distinct (scenario, seed, threads, choice list) executions compared.",
 		Assumptions: []string{
 			"scheduling points only at synchronisation operations (channel, mutex, WaitGroup, go); data races are reported separately by vector clocks",
@@ -913,9 +915,13 @@ func init() {
 					ts = append(ts, mc.Task{Name: fmt.Sprintf("boot#%s/frac%d", m, fi), Run: func(c *mc.Ctx) { c11CheckBoot(c, b) }})
 				}
 			}
-			return ts
+			// reformatting a file of several alignments gives what reformatting each of them alone gives (in process)
+			return append(ts, cliStreamTasks("C11")...)
 		},
 		Replay: func(c *mc.Ctx, payload json.RawMessage) {
+			if cliStreamReplay(c, payload) {
+				return
+			}
 			// a payload is a c11Run, a c11Chain or a c11Boot: told apart by their fields
 			var probe map[string]json.RawMessage
 			if err := json.Unmarshal(payload, &probe); err != nil {
